@@ -1,7 +1,4 @@
 //! C17 — the macro is total: it never panics, aborts or hangs.
-use std::sync::atomic::{AtomicU64, Ordering};
-use std::sync::Arc;
-
 use rayon::prelude::*;
 use serde_json::json;
 
@@ -18,7 +15,8 @@ pub struct Res {
     pub result: Expansion,
 }
 
-pub fn eval(dna: &[u16]) -> Res {
+/// the mutated request for a choice stream (no expansion happens here)
+pub fn mutant(dna: &[u16]) -> Result<(String, Vec<String>), String> {
     let mut d = Dna::new(dna);
     let mut cfg = GenCfg::full();
     cfg.trait_pct = 40;
@@ -26,12 +24,20 @@ pub fn eval(dna: &[u16]) -> Res {
     let base = b.spec.render_def_with("", true);
     let ts: proc_macro2::TokenStream = match base.parse() {
         Ok(t) => t,
-        Err(e) => return Res { src: base, what: vec![], result: Expansion::Unparsable(e.to_string()) },
+        Err(e) => return Err(format!("{e}: {base}")),
     };
     let (m, what) = mutate::mutate(ts, &mut d);
-    let src = m.to_string();
-    let result = engine::expand_tokens(m);
-    Res { src, what, result }
+    Ok((m.to_string(), what))
+}
+
+pub fn eval(dna: &[u16]) -> Res {
+    match mutant(dna) {
+        Ok((src, what)) => {
+            let result = engine::expand_src(&src);
+            Res { src, what, result }
+        },
+        Err(e) => Res { src: String::new(), what: vec![], result: Expansion::Unparsable(e) },
+    }
 }
 
 fn panic_site(m: &str) -> String {
@@ -130,7 +136,7 @@ pub fn run(ctx: &Ctx) -> i32 {
          literal kinds, empty lists, extra group nesting up to 64, = vs () confusion, multi-segment paths, non-ASCII, huge integers, \
          misplaced unsafe, delimiter changes) or at item level (discriminant expressions, repr forms, malformed educe attributes); \
          oracle: the in-process expansion returns Ok or an Err whose message and compile_error tokens can be rendered; every \
-         in-process panic is re-run through rustc with the shipping macro and is a violation only if rustc reports a proc-macro panic, \
+         in-process panic and every input that kills its expanding child process (stack overflow, abort) is re-run through rustc with the shipping macro and is a violation only if rustc reports a proc-macro panic, \
          an ICE or dies by signal; plus a bounded-exhaustive grid (12 traits x 69 argument forms x type/variant/field position x 12 item skeletons incl. unions and empty enums, alone and beside a second trait item in both orders); plus a nesting ladder (16..4096) compiled in child processes; non-trivial = the mutant reaches a \
          diagnostic path (is refused); distinct by mutant hash",
     );
@@ -144,43 +150,39 @@ pub fn run(ctx: &Ctx) -> i32 {
     let trees = check::draw(ctx.seed, 0xC17, n, 520);
     let dnas: Vec<Vec<u16>> = trees.iter().map(|t| t.current()).collect();
     drop(trees);
-    // watchdog: a case that runs for more than 30 s is a hang candidate
-    let progress = Arc::new(AtomicU64::new(0));
-    let done = Arc::new(AtomicU64::new(0));
-    {
-        let progress = progress.clone();
-        let done = done.clone();
-        let prop = ctx.prop.clone();
-        std::thread::spawn(move || {
-            let mut last = 0;
-            let mut stale = 0;
-            loop {
-                std::thread::sleep(std::time::Duration::from_secs(5));
-                if done.load(Ordering::SeqCst) == 1 {
-                    return;
-                }
-                let p = progress.load(Ordering::SeqCst);
-                if p == last {
-                    stale += 1;
-                } else {
-                    stale = 0;
-                    last = p;
-                }
-                if stale >= 12 {
-                    println!("INCONCLUSIVE property={prop}: no expansion finished for 60 s (possible hang after {p} cases)");
-                    std::process::exit(check::EXIT_INCONCLUSIVE);
-                }
-            }
-        });
-    }
-    let results: Vec<Res> = dnas
-        .par_iter()
-        .map(|d| {
-            let r = eval(d);
-            progress.fetch_add(1, Ordering::SeqCst);
-            r
+    // the expansions run in child processes: a stack overflow or abort in the subject kills a child, not this check,
+    // and names the input that was being expanded; a child without progress for 240 s is killed (hang candidate)
+    let muts: Vec<Result<(String, Vec<String>), String>> = dnas.par_iter().map(|d| mutant(d)).collect();
+    let srcs: Vec<String> = muts.iter().map(|m| m.as_ref().map(|x| x.0.clone()).unwrap_or_default()).collect();
+    let isos = engine::expand_isolated("C17-iso", &srcs, false);
+    let mut crash_candidates: Vec<(String, String, Vec<u16>)> = Vec::new();
+    let mut hung = 0u64;
+    let results: Vec<Res> = muts
+        .into_iter()
+        .zip(isos.into_iter())
+        .enumerate()
+        .map(|(i, (m, iso))| {
+            let (src, what) = m.unwrap_or_default();
+            let result = match iso {
+                engine::Iso::Done(r) => r,
+                engine::Iso::Crashed(how) => {
+                    if crash_candidates.len() < 12 {
+                        crash_candidates.push((src.clone(), format!("the expanding process died: {how}"), dnas[i].clone()));
+                    }
+                    Expansion::Panic(format!("process died: {how} @ <crash>"))
+                },
+                engine::Iso::Hung => {
+                    hung += 1;
+                    Expansion::Unparsable("no answer".into())
+                },
+            };
+            Res { src, what, result }
         })
         .collect();
+    rep.count("expansions_that_killed_their_process", crash_candidates.len() as u64);
+    if hung > 0 {
+        rep.inconclusive.push(format!("{hung} expansions gave no answer within the watchdog time (possible hang)"));
+    }
     let mut candidates: Vec<(usize, String)> = Vec::new();
     let mut per_site: std::collections::BTreeMap<String, usize> = Default::default();
     for (i, r) in results.iter().enumerate() {
@@ -206,12 +208,18 @@ pub fn run(ctx: &Ctx) -> i32 {
     }
     // bounded-exhaustive grid
     let grid = grid_sources(ctx.thorough());
-    let grid_res: Vec<Expansion> = grid
-        .par_iter()
-        .map(|s| {
-            let r = engine::expand_src(s);
-            progress.fetch_add(1, Ordering::SeqCst);
-            r
+    let grid_res: Vec<Expansion> = engine::expand_isolated("C17-iso-grid", &grid, false)
+        .into_iter()
+        .enumerate()
+        .map(|(i, iso)| match iso {
+            engine::Iso::Done(r) => r,
+            engine::Iso::Crashed(how) => {
+                if crash_candidates.len() < 24 {
+                    crash_candidates.push((grid[i].clone(), format!("the expanding process died: {how}"), Vec::new()));
+                }
+                Expansion::Unparsable("process died".into())
+            },
+            engine::Iso::Hung => Expansion::Unparsable("no answer".into()),
         })
         .collect();
     let mut grid_candidates: Vec<(usize, String)> = Vec::new();
@@ -241,12 +249,12 @@ pub fn run(ctx: &Ctx) -> i32 {
         Ok(s) => s,
         Err(e) => {
             rep.inconclusive.push(e.0);
-            done.store(1, Ordering::SeqCst);
             return rep.finish();
         },
     };
     let mut all: Vec<(String, String, Vec<u16>)> = candidates.iter().map(|(i, m)| (results[*i].src.clone(), m.clone(), dnas[*i].clone())).collect();
     all.extend(grid_candidates.iter().map(|(i, m)| (grid[*i].clone(), m.clone(), Vec::new())));
+    all.extend(crash_candidates.iter().cloned());
     if !all.is_empty() {
         let units: Vec<Unit> = all.iter().map(|(src, _, _)| Unit { body: format!("use educe::Educe;\n#[derive(Educe)]\n{src}\n"), has_run: false }).collect();
         let (outs, _) = check::eval_units("C17", &units, &so, 1, false);
@@ -304,7 +312,6 @@ pub fn run(ctx: &Ctx) -> i32 {
         }
     }
     check::clean_work("C17-ladder");
-    done.store(1, Ordering::SeqCst);
     if ctx.thorough() || std::env::var("VERIF_FUZZ").is_ok() {
         fuzz_lane(ctx, &mut rep, &so, &known, &dnas);
     }
